@@ -643,3 +643,40 @@ func HOpenAny() int {
 	}
 	return int(r)
 }
+
+// HListenUnix creates a non-blocking AF_UNIX stream listener on an abstract address (harness-owned).
+//
+//go:norace
+func HListenUnix(name string, backlog int) int {
+	pt("H:listen")
+	fd, err := syscall.Socket(syscall.AF_UNIX, syscall.SOCK_STREAM|syscall.SOCK_NONBLOCK|syscall.SOCK_CLOEXEC, 0)
+	if err != nil {
+		panic(err)
+	}
+	if err := syscall.Bind(fd, &syscall.SockaddrUnix{Name: "@" + name}); err != nil {
+		panic(err)
+	}
+	if err := syscall.Listen(fd, backlog); err != nil {
+		panic(err)
+	}
+	if led != nil {
+		led.created(fd, "listener", "harness")
+	}
+	return fd
+}
+
+// HConnectUnix connects a new harness-owned socket to an abstract address (synchronous for AF_UNIX).
+//
+//go:norace
+func HConnectUnix(name string) (int, error) {
+	pt("H:connect")
+	fd, err := syscall.Socket(syscall.AF_UNIX, syscall.SOCK_STREAM|syscall.SOCK_NONBLOCK|syscall.SOCK_CLOEXEC, 0)
+	if err != nil {
+		panic(err)
+	}
+	if led != nil {
+		led.created(fd, "client", "harness")
+	}
+	err = syscall.Connect(fd, &syscall.SockaddrUnix{Name: "@" + name})
+	return fd, err
+}
